@@ -188,4 +188,8 @@ def run(prog, rep):
     rule_kinds(prog, rep)
     rule_chain(prog, rep)
     rule_reserved(prog, rep)
+    # IsValidImplementationFieldType() is a schema validation verdict: its variant table
+    # (decided by C29.IMPL) is a condition of this property and of C15 too
+    from .C29 import rule_impl
+    rule_impl(prog, rep)
     rep.note("presence of a handler per rule is a necessary condition only; agreement of verdicts with graphql-js is not decided")
